@@ -26,13 +26,13 @@ fn c16_default_validate_message() {
     let r = MinimalApp::validate_message(&env, &sc, &mid, &sa, &payload);
 
     let ph: BytesN<32> = env.crypto().keccak256(&payload).into();
-    assert!(
+    soroban_sdk::obl!(
         shim::n_calls() == 1 && shim::call_is(0, &gw, "validate_message", &(me.clone(), sc.clone(), mid.clone(), sa.clone(), ph)),
         "OBL C16.default_asks_gateway: exactly one gateway.validate_message(this app, same source chain, message id, source address, keccak256(delivered payload))"
     );
-    assert!(r.is_ok() == shim::call_ret::<bool>(0), "OBL C16.default_ok_iff_consumed: Ok exactly when the gateway consumed an approval");
-    assert!(matches!(r, Ok(()) | Err(ExecutableError::NotApproved)), "OBL C16.default_err_code");
-    assert!(inst().n_changed() == 0 && pers().n_changed() == 0 && temp().n_changed() == 0 && shim::n_events() == 0, "OBL C16.default_frame");
+    soroban_sdk::obl!(r.is_ok() == shim::call_ret::<bool>(0), "OBL C16.default_ok_iff_consumed: Ok exactly when the gateway consumed an approval");
+    soroban_sdk::obl!(matches!(r, Ok(()) | Err(ExecutableError::NotApproved)), "OBL C16.default_err_code");
+    soroban_sdk::obl!(inst().n_changed() == 0 && pers().n_changed() == 0 && temp().n_changed() == 0 && shim::n_events() == 0, "OBL C16.default_frame");
     kani::cover!(r.is_ok(), "COVER default validate ok");
     kani::cover!(r.is_err(), "COVER default validate err");
 }
